@@ -177,7 +177,7 @@ def bitEval (case : Json) : Json :=
       match benv with
       | none => Json.mkObj [("outside", true)]
       | some benv =>
-        match bitStmts benv d.body with
+        match bitBody prog benv d.body with
         | none => Json.mkObj [("outside", true)]
         | some (_, bits, p, _) =>
           Json.mkObj [("bits", bitsToString bits), ("panic", match p with | some k => Json.str (panicName k) | none => Json.null)]).toArray)]
